@@ -598,6 +598,9 @@ class Interp:
         for i, a in enumerate(args):
             st.cells[i + 1].v = a
         st.substs = substs or {}
+        # an inlined callee runs under the conditions of its call site (event guards are absolute)
+        base = self.stack[-1].guard if self.stack else ()
+        st.guard = base
         self.stack.append(st)
         try:
             rets = []
@@ -610,7 +613,7 @@ class Interp:
             self.stack.pop()
         if not rets:
             raise Diverge()
-        return self.merge_values([(g, v) for g, v, _ in rets], base_len=0), rets
+        return self.merge_values([(g, v) for g, v, _ in rets], base_len=len(base)), rets
 
     def cfg(self, body):
         c = self.cfgs.get(body['path'])
@@ -733,8 +736,12 @@ class Interp:
             if res is not None:
                 return res
         pre_vals = [c.v for c in st.cells]
+        pre_all = self.snap(st)
         self.havoc_loop(st, cfg, header, L)
         phi_vals = [c.v for c in st.cells]
+        own = {id(c) for c in st.cells}
+        # storage outside the frame (targets of &mut arguments, heap cells) that the loop may write
+        ext = [{'cell': c, 'init': v0, 'phi': c.v, 'back': []} for c, v0 in pre_all if id(c) not in own and c.v is not v0]
         self.loop_depth += 1
         g0 = st.guard
         inner_stops = frozenset(exits | {header})
@@ -753,8 +760,11 @@ class Interp:
                 if i is not None:
                     vals[i] = v
             back.append((g[len(g0):], vals))
+            now = {id(c): v for c, v in snap}
+            for x in ext:
+                x['back'].append((g[len(g0):], now.get(id(x['cell']))))
         self.loops.append({'body': st.body, 'header': header, 'blocks': L, 'init': pre_vals, 'phi': phi_vals, 'back': back,
-                           'depth': len(self.stack)})
+                           'depth': len(self.stack), 'ext': ext})
         out = {}
         exit_states = []
         for sk, lst in r.items():
